@@ -625,30 +625,40 @@ func (ex *Exec) lookup(st *State, fr *Frame, in *ssa.Lookup) bool {
 	return cont
 }
 
+// mapUpdate stores key->val.  When the key may alias an existing symbolic key the path is split on the
+// equality: the "different" side is pushed unchanged and re-executes the instruction under the
+// strengthened path condition (no side effect has happened yet).
 func (ex *Exec) mapUpdate(st *State, m MapRef, key, val Value) {
 	if m.Obj == 0 {
 		ex.goPanic(st, "assignment to entry in nil map")
 	}
 	ex.globalAccess(st, m.Obj, true, fmt.Sprintf("map%d", m.Obj))
 	ex.checkHashable(st, key)
-	o := st.Heap.get(m.Obj)
-	md := o.Map
-	nk := append([]Value(nil), md.Keys...)
-	nv := append([]Value(nil), md.Vals...)
-	for i := range nk {
-		c := ex.keyEq(st, nk[i], key)
-		if c.IsConst() {
-			if c.Val == 1 {
-				nv[i] = val
-				st.Heap.put(m.Obj, &Object{Map: &MapData{nk, nv}})
-				return
-			}
+	md := st.Heap.get(m.Obj).Map
+	for i := range md.Keys {
+		c := ex.keyEq(st, md.Keys[i], key)
+		if c.IsConst() && c.Val == 0 {
 			continue
 		}
-		ex.unsupported(st, "map update with possibly-aliasing symbolic key")
+		if !c.IsConst() {
+			tst, fst := ex.branch(st, c, nil)
+			if tst == nil && fst == nil {
+				panic(pathEnd{"infeasible"})
+			}
+			if tst == nil {
+				continue
+			}
+			if fst != nil {
+				ex.push(fst)
+			}
+		}
+		nv := append([]Value(nil), md.Vals...)
+		nv[i] = val
+		st.Heap.put(m.Obj, &Object{Map: &MapData{md.Keys, nv}})
+		return
 	}
-	nk = append(nk, key)
-	nv = append(nv, val)
+	nk := append(append([]Value(nil), md.Keys...), key)
+	nv := append(append([]Value(nil), md.Vals...), val)
 	st.Heap.put(m.Obj, &Object{Map: &MapData{nk, nv}})
 }
 
@@ -656,6 +666,7 @@ func (ex *Exec) mapDelete(st *State, m MapRef, key Value) {
 	if m.Obj == 0 {
 		return
 	}
+	ex.globalAccess(st, m.Obj, true, fmt.Sprintf("map%d", m.Obj))
 	md := st.Heap.get(m.Obj).Map
 	var nk, nv []Value
 	for i := range md.Keys {
@@ -664,7 +675,16 @@ func (ex *Exec) mapDelete(st *State, m MapRef, key Value) {
 			continue
 		}
 		if !c.IsConst() {
-			ex.unsupported(st, "map delete with symbolic key")
+			// decide on this path: keys are pairwise distinct, so at most one matches; split lazily
+			tst, fst := ex.branch(st, c, nil)
+			if tst != nil && fst != nil {
+				// fst is a fork in which the key differs from entry i: it re-executes the delete
+				ex.push(fst)
+				continue // st: entry i deleted
+			}
+			if tst != nil {
+				continue
+			}
 		}
 		nk = append(nk, md.Keys[i])
 		nv = append(nv, md.Vals[i])
